@@ -13,7 +13,7 @@ var RuleEdits = []string{
 	"pathParamNotRequired", "dupParamInline", "dupParamViaShared", "twoBodyParams", "bodyAndForm",
 	"paramArrayNoItems", "paramNestedArrayNoItems", "headerArrayNoItems", "schemaArrayNoItems",
 	"requiredUndefined", "unresolvableDefinitionRef", "unresolvableParameterRef", "unresolvableResponseRef",
-	"dupInheritedProperty", "circularAncestry", "overlappingPaths",
+	"dupInheritedProperty", "circularAncestry", "overlappingPaths", "overlappingPaths3",
 	"invalidPatternParam", "invalidPatternNonStringParam", "unresolvableAllOfRef", "invalidPatternHeader", "invalidPatternSchema", "invalidPatternItems",
 	"missingPaths", "emptyPlaceholder",
 }
@@ -378,6 +378,42 @@ func ApplyRuleEdit(t *rapid.T, name string, doc map[string]any, info *SpecInfo) 
 		parent, _ := defs[parentName].(map[string]any)
 		// the parent now inherits from its own child
 		defs[parentName] = map[string]any{"allOf": []any{map[string]any{"$ref": "#/definitions/" + escapePtr(childName)}, parent}}
+		return true
+	case "overlappingPaths3":
+		// three paths that overlap pairwise: which pairs are reported must not depend on the order of visit
+		if !ApplyRuleEdit(t, "overlappingPaths", doc, info) {
+			return false
+		}
+		paths, _ := doc["paths"].(map[string]any)
+		for _, p := range SortedKeys(paths) {
+			if strings.Contains(p, "{other}") {
+				third := strings.Replace(p, "{other}", "{third}", 1)
+				it := Clone(paths[p]).(map[string]any)
+				var fix func(v any)
+				fix = func(v any) {
+					switch x := v.(type) {
+					case map[string]any:
+						if x["in"] == "path" && x["name"] == "other" {
+							x["name"] = "third"
+						}
+						if id, ok := x["operationId"].(string); ok {
+							x["operationId"] = id + "3"
+						}
+						for _, w := range x {
+							fix(w)
+						}
+					case []any:
+						for _, w := range x {
+							fix(w)
+						}
+					}
+				}
+				fix(it)
+				paths[third] = it
+				info.Placeholders[third] = []string{"third"}
+				return true
+			}
+		}
 		return true
 	case "overlappingPaths":
 		oi, ok := pickOp(t, info, func(o OpInfo) bool { return len(info.Placeholders[o.Path]) == 1 && strings.HasSuffix(o.Path, "}") })
